@@ -1,5 +1,7 @@
 import CpModel.CondFlow
+import CpModel.CondElements
 import CpProofs.C16Cond
+import CpProofs.C16ElemsFull
 /-!
   C16, round 2: the request flow with `response.stream`, handlers that validate themselves (scripts of
   `body` / `since` / `etags auto` steps, executed before or after the body exists) and the
@@ -613,6 +615,72 @@ theorem respondX_ignores_ifRange (r : ReqX) (x : Option Text) : respondX { r wit
     have e2 : plainRespX { r with ifRange := x } = plainRespX r := by funext s e; exact h2 s e
     rw [e1, e2]
   · simp only [respondX, hk, h3, fullScript, initState, runScript_ifRange]
+
+/-! ### from the raw header texts to the response -/
+
+theorem etagPhase_congr (b b' : Req) (st : Nat) (ok : Option Text → Resp)
+    (hs : b.etagsOn = b'.etagsOn ∧ b.handlerEtag = b'.handlerEtag ∧ b.autotags = b'.autotags ∧
+      b.autoTag = b'.autoTag ∧ b.getHead = b'.getHead ∧ b.isHead = b'.isHead)
+    (hv : ∀ e st', validateEtags e st' b.getHead b.im b.inm = validateEtags e st' b'.getHead b'.im b'.inm) :
+    etagPhase b st ok = etagPhase b' st ok := by
+  obtain ⟨h1, h2, h3, h4, h5, h6⟩ := hs
+  unfold etagPhase etagOf finish
+  simp only [hv, h1, h2, h3, h4, h6]
+
+/-- the request with its If-Match / If-None-Match lists replaced -/
+def withConds (r : ReqX) (im inm : List Text) : ReqX := { r with base := { r.base with im := im, inm := inm } }
+
+theorem runStep_conds_perm (r : ReqX) {im im' inm inm' : List Text} (h1 : im.Perm im') (h2 : inm.Perm inm')
+    (st : HState) (s : Step) : runStep (withConds r im inm) st s = runStep (withConds r im' inm') st s := by
+  cases s with
+  | body => rfl
+  | since => rfl
+  | etags auto =>
+    simp only [runStep, withConds]
+    split
+    · rfl
+    · rw [validateEtags_perm _ _ _ h1 h2]
+
+theorem runScript_conds_perm (r : ReqX) {im im' inm inm' : List Text} (h1 : im.Perm im') (h2 : inm.Perm inm')
+    (ss : List Step) (st : HState) :
+    runScript (withConds r im inm) ss st = runScript (withConds r im' inm') ss st := by
+  induction ss generalizing st with
+  | nil => rfl
+  | cons s ss ih => simp only [runScript, runStep_conds_perm r h1 h2, ih]
+
+/-- **the response depends on the If-Match / If-None-Match lists only up to their order** -/
+theorem respondX_conds_perm (r : ReqX) {im im' inm inm' : List Text} (h1 : im.Perm im') (h2 : inm.Perm inm') :
+    respondX (withConds r im inm) = respondX (withConds r im' inm') := by
+  cases hk : r.base.kind
+  · -- file: only `tools.etags` (etagPhase) looks at the lists
+    have hh : handler (withConds r im inm).base = handler (withConds r im' inm').base := by
+      simp [handler, withConds, hk]
+    have hp : ∀ st ok, etagPhase (withConds r im inm).base st ok = etagPhase (withConds r im' inm').base st ok :=
+      fun st ok => etagPhase_congr _ _ st ok ⟨rfl, rfl, rfl, rfl, rfl, rfl⟩
+        (fun e st' => validateEtags_perm e st' _ h1 h2)
+    simp only [respondX, show (withConds r im inm).base.kind = .file from hk,
+      show (withConds r im' inm').base.kind = .file from hk, etagPhaseX, hp, hh]
+    rfl
+  · simp only [respondX, show (withConds r im inm).base.kind = .gen from hk,
+      show (withConds r im' inm').base.kind = .gen from hk]
+    have hf : fullScript (withConds r im inm) = fullScript (withConds r im' inm') := rfl
+    have hi : initState (withConds r im inm) = initState (withConds r im' inm') := rfl
+    rw [hf, hi, runScript_conds_perm r h1 h2]
+    cases runScript (withConds r im' inm') (fullScript (withConds r im' inm')) (initState (withConds r im' inm')) <;> rfl
+
+/-- **End to end from the header texts**: the answer computed from `request.headers.elements(...)` (sorted,
+    reversed) is the answer computed from the elements in header order — on parameter-free values: from the
+    plain comma-outside-quotes split -/
+theorem respondX_from_header_texts (r : ReqX) (imText inmText : Option Text) :
+    respondX (withConds r (CpModel.CondElements.elementsFull imText) (CpModel.CondElements.elementsFull inmText)) =
+      respondX (withConds r (unsorted imText) (unsorted inmText)) :=
+  respondX_conds_perm r (elementsFull_perm imText) (elementsFull_perm inmText)
+
+theorem respondX_from_plain_texts (r : ReqX) (imText inmText : Option Text)
+    (h1 : ∀ s, imText = some s → ';' ∉ s) (h2 : ∀ s, inmText = some s → ';' ∉ s) :
+    respondX (withConds r (CpModel.CondElements.elementsFull imText) (CpModel.CondElements.elementsFull inmText)) =
+      respondX (withConds r (elementsSimple imText) (elementsSimple inmText)) := by
+  rw [respondX_from_header_texts, parsed_plain imText h1, parsed_plain inmText h2]
 
 /-! ### non-vacuity -/
 
